@@ -27,6 +27,11 @@ def qualpath(mod: HasQualPath) -> Optional[List[str]]:
         # Unnamed. Return None.
         return None
 
+    if hasattr(mod, "port_list") and hasattr(mod, "domain"):
+        # External modules are identified by their domain and name, as in exported packages.
+        # (Like Generators', their `_source_info` is that of the dataclass machinery.)
+        return ([mod.domain] if mod.domain else []) + [mod.name]
+
     func = getattr(mod, "func", None)
     if func is not None:
         # Generators are defined where their function is.
